@@ -174,7 +174,13 @@ def ic_case(draw):
         R0forms += ['single', 'single']
     case['R0form'] = draw(st.sampled_from(R0forms))
     case['positional'] = draw(st.booleans()) and sim in POSITIONAL
-    case['rho'] = draw(st.sampled_from([0.1, 0.25, 0.5, 0.3, 0.75, 1.0, 0.05, 0.45]))
+    N = len(nodes)
+    if draw(st.booleans()):
+        # N*rho exactly (or within an ulp of) a half-integer: rounding ties are where int(round(.)) differs from its look-alikes
+        k = draw(st.integers(0, max(0, N - 1)))
+        case['rho'] = min(1.0, (k + 0.5) / N)
+    else:
+        case['rho'] = draw(st.sampled_from([0.1, 0.25, 0.5, 0.3, 0.75, 1.0, 0.05, 0.45]))
     return case
 
 
@@ -268,7 +274,8 @@ def prop_ic(case):
         except Exception as e:
             fails.append(Failure('basic_discrete_SIR:wrapper:exception:%s' % exc_signature(e), 'raised %r' % (e,)))
     nt = bool(R0) or form not in ('list',) or case['tmin'] != 0
-    classes = [sim, 'I0form=' + form] + (['R0'] if R0 else []) + (['positional'] if pos else []) + ['R0form=' + rform if R0 else 'noR0']
+    x = N * rho
+    classes = [sim, 'I0form=' + form] + (['rho-rounding-tie'] if abs(x - int(x) - 0.5) < 1e-9 else []) + (['R0'] if R0 else []) + (['positional'] if pos else []) + ['R0form=' + rform if R0 else 'noR0']
     return Result(fails, nontrivial=nt, classes=classes)
 
 
